@@ -20,7 +20,8 @@ RULE = ('entropy of 16/20/24/28/32 bytes (all-zero, all-ones, 1-8 leading zero b
         'reference rejects); unknown words: word of another list, upper-cased word, 4-letter prefix, ASCII junk, '
         'must be rejected by to_entropy and to_seed. Shared-word sentences: entropies constructed so that every '
         'word of the sentence also occurs in a second bundled list (dutch/english/french, the two chinese lists), '
-        'decoded by the instance of their own language. Non-trivial = non-English list, entropy with a leading zero '
+        'decoded by the instance of their own language. Object histories: one Mnemonic(lang) object reads sentences of drawn languages and is asked for to_mnemonic / '
+        'word() in between. Non-trivial = non-English list, entropy with a leading zero '
         'byte, non-ASCII passphrase, or any substitution/unknown-word case; distinct by all case fields.')
 ASSUMPTIONS = ['ref/wordlists are the nine BIP39 lists as bundled at the baseline commit (compared byte for byte with '
                'the tree under test at the start of every run)',
@@ -303,7 +304,57 @@ def check_lists(ctx, case):
             raise Discrepancy('lists.loaded', 'Mnemonic(%r).wordlist() differs from the BIP39 list' % lang, case)
 
 
-DISPATCH = {'entropy': check_entropy, 'subst': check_subst, 'unknown': check_unknown, 'lists': check_lists}
+def check_mhistory(ctx, case):
+    """One long-lived Mnemonic(lang) object: reads of sentences in drawn languages (to_entropy, to_seed) interleaved
+    with to_mnemonic / word() requests. What the object produces is always in ITS language and what it reads is
+    decoded to the entropy / seed of the sentence, whatever it read before. case: kind=mhistory, lang, ops
+    [{'op': 'to_mnemonic'|'to_entropy'|'to_seed'|'word', 'entropy': hex, 'lang': language of the sentence, 'i'}]"""
+    from ref import bip39
+    mn, _ = _lib()
+    lang = case['lang']
+    try:
+        m = mn.Mnemonic(lang)
+    except Exception as e:
+        raise Discrepancy('init.raises', 'Mnemonic(%r) raised %r' % (lang, e), case)
+    done = []
+    for op in case['ops']:
+        name = op['op']
+        ent = bytes.fromhex(op.get('entropy', '00' * 16))
+        try:
+            if name == 'to_mnemonic':
+                want = nfkd(' '.join(bip39.entropy_to_words(ent, lang)))
+                got = nfkd(m.to_mnemonic(ent, check_on_curve=False))
+                what = 'to_mnemonic(%s)' % ent.hex()
+            elif name == 'word':
+                want = nfkd(bip39.wordlist(lang)[op['i']])
+                got = nfkd(m.word(op['i']))
+                what = 'word(%d)' % op['i']
+            elif name == 'to_entropy':
+                text = _spell(bip39.entropy_to_words(ent, op['lang']), op['lang'], 'lib')
+                want = ent
+                got = bytes(m.to_entropy(text))
+                what = 'to_entropy(<%s sentence>)' % op['lang']
+            else:
+                text = _spell(bip39.entropy_to_words(ent, op['lang']), op['lang'], 'lib')
+                want = bip39.seed(text, 'pw')
+                got = bytes(m.to_seed(text, 'pw'))
+                what = 'to_seed(<%s sentence>)' % op['lang']
+        except Exception as e:
+            if _is_ascii_hex(ent):
+                ctx.refusal('mhistory.ascii_hex_entropy')
+                done.append(name)
+                continue
+            raise Discrepancy('mhistory.raises', 'Mnemonic(%r): %s raised %r after %r' % (lang, name, e, done), case)
+        if got != want:
+            raise Discrepancy('mhistory.%s' % name, 'Mnemonic(%r).%s after %r gives %r, expected %r' %
+                              (lang, what, done, got if isinstance(got, str) else got.hex(),
+                               want if isinstance(want, str) else want.hex()), case)
+        done.append('%s[%s]' % (name, op.get('lang', lang)) if name in ('to_entropy', 'to_seed') else name)
+        ctx.count()
+
+
+DISPATCH = {'entropy': check_entropy, 'subst': check_subst, 'unknown': check_unknown, 'lists': check_lists,
+            'mhistory': check_mhistory}
 
 
 def replay(ctx, case):
@@ -578,6 +629,26 @@ def run(ctx):
         ctx.klass('shared_words.%s~%s' % (case['lang'], case['shared_with']))
         check_entropy(ctx, case)
     ctx.run_given('shared_words', shared_strategy(), prop_shared, ctx.scale(12, 400))
+
+    # one long-lived object that reads sentences of several languages
+    from hypothesis import strategies as hst
+    ent16 = hst.sampled_from([16, 16, 24, 32]).flatmap(lambda n: hst.binary(min_size=n, max_size=n)).filter(
+        lambda b: not _is_ascii_hex(b)).map(bytes.hex)
+    mop = hst.one_of(
+        hst.fixed_dictionaries({'op': hst.just('to_mnemonic'), 'entropy': ent16}),
+        hst.fixed_dictionaries({'op': hst.just('word'), 'i': hst.sampled_from([0, 1, 1000, 2047])}),
+        hst.fixed_dictionaries({'op': hst.sampled_from(['to_entropy', 'to_entropy', 'to_seed']), 'entropy': ent16,
+                                'lang': hst.sampled_from(LANGS)}))
+    mhist = hst.fixed_dictionaries({'kind': hst.just('mhistory'), 'lang': hst.sampled_from(LANGS),
+                                    'ops': hst.lists(mop, min_size=2, max_size=6)})
+
+    def prop_mhist(case):
+        reads = [o for o in case['ops'] if o['op'] in ('to_entropy', 'to_seed')]
+        if any(o['lang'] != case['lang'] for o in reads):
+            ctx.nt(('mhistory', case['lang'], str(case['ops'])))
+            ctx.klass('mhistory.foreign_sentence_read')
+        check_mhistory(ctx, case)
+    ctx.run_given('mhistory', mhist, prop_mhist, ctx.scale(25, 800))
 
     def prop_subst(case):
         ctx.nt(('subst', case))
